@@ -441,6 +441,46 @@ def ref_outline(kind, at):
     raise KeyError(kind)
 
 
+def ref_polyline(kind, at, dense=180):
+    """the outline as a dense closed/open polygon (list of complex) in the shape's own coordinates: the reference for
+    'nothing but the outline is returned'"""
+    f = lambda k, dflt=0.0: float(at.get(k, dflt))
+    if kind in ('line', 'polyline', 'polygon'):
+        pts = ref_outline(kind, at)
+        return pts
+    if kind in ('circle', 'ellipse'):
+        rx = f('r') if kind == 'circle' else f('rx')
+        ry = f('r') if kind == 'circle' else f('ry')
+        c = complex(f('cx'), f('cy'))
+        return [c + complex(rx * math.cos(a), ry * math.sin(a)) for a in np.linspace(0, 2 * math.pi, 4 * dense + 1)]
+    if kind == 'rect':
+        x, y, w, h = f('x'), f('y'), f('width'), f('height')
+        rx, ry = at.get('rx'), at.get('ry')
+        if rx is None and ry is None:
+            return [complex(x, y), complex(x + w, y), complex(x + w, y + h), complex(x, y + h), complex(x, y)]
+        rx = float(rx if rx is not None else ry)
+        ry = float(ry if ry is not None else rx)
+        out = []
+        for (cx, cy, a0) in [(x + w - rx, y + ry, -90), (x + w - rx, y + h - ry, 0), (x + rx, y + h - ry, 90), (x + rx, y + ry, 180)]:
+            out += [complex(cx + rx * math.cos(math.radians(a)), cy + ry * math.sin(math.radians(a))) for a in np.linspace(a0, a0 + 90, dense // 2 + 1)]
+        return out + [out[0]]
+    raise KeyError(kind)
+
+
+def _dist_pts_to_polyline(poly, pts):
+    """largest distance from the points to the polygonal line"""
+    a = np.array(poly[:-1]); b = np.array(poly[1:])
+    d = b - a
+    L2 = np.abs(d) ** 2
+    worst = 0.0
+    for p in pts:
+        with np.errstate(divide='ignore', invalid='ignore'):
+            t = np.where(L2 > 0, ((p - a) * np.conj(d)).real / np.where(L2 > 0, L2, 1), 0.0)
+        t = np.clip(t, 0, 1)
+        worst = max(worst, float(np.min(np.abs(a + t * d - p))))
+    return worst
+
+
 def _dist_pts_to_path(path, pts, n=200):
     """largest distance from the points to the path (sampled, then refined by ternary search)"""
     ts = np.linspace(0, 1, n + 1)
@@ -567,6 +607,27 @@ def sample(ctx, budget=1.0, hint=None, broken=None):
                  'svgpathtools.%s' % {'Document.paths': 'Document.from_svg_string(%r).paths()' % text, 'svg2paths': 'svg2paths(io.StringIO(%r))' % text,
                                       'SaxDocument': 'SaxDocument(<file with %r>).flatten_all_paths()' % text, 'paths_from_group': 'Document.from_svg_string(%r).paths_from_group(...)' % text}[api])
             return False
+        # ... and nothing but that geometry: the end points and interior points of every returned segment, mapped back by the inverse
+        # matrix, lie on the element's own outline
+        try:
+            minv = np.linalg.inv(m)
+        except Exception:
+            return True
+        own = [seg.point(t) for seg in path for t in (0, 0.5, 1)]
+        back = [complex(*(minv @ np.array([q.real, q.imag, 1.0]))[:2]) for q in own]
+        if kind == 'path':
+            d2 = _dist_pts_to_path(base, back, n=60)
+            ssz = max(1.0, max(abs(q) for q in pts))
+        else:
+            poly = ref_polyline(kind, at)
+            d2 = _dist_pts_to_polyline(poly, back)
+            ssz = max(1.0, max(abs(q) for q in poly))
+        if d2 > 2e-4 * ssz * max(1.0, float(np.abs(minv[:2, :2]).max())):
+            fail('%s/%s excess geometry' % (api, kind), 'the path returned for an element contains points that are not on the element\'s outline',
+                 {'svg': text, 'element': sid}, 'a returned point is off the outline by %r (in the element\'s own coordinates)' % d2, 'on the outline',
+                 'svgpathtools.%s' % {'Document.paths': 'Document.from_svg_string(%r).paths()' % text, 'svg2paths': 'svg2paths(io.StringIO(%r))' % text,
+                                      'SaxDocument': 'SaxDocument(<file with %r>).flatten_all_paths()' % text, 'paths_from_group': 'Document.from_svg_string(%r).paths_from_group(...)' % text}[api])
+            return False
         return True
 
     import tempfile, os
@@ -577,11 +638,48 @@ def sample(ctx, budget=1.0, hint=None, broken=None):
         nontriv.add((len(ref), tuple(sorted(set(k for _, k, _, _ in ref))), arcs_tf))
         byid = {sid: (kind, at, m) for sid, kind, at, m in ref}
         # -- Document.paths ------------------------------------------------------------------
+        def _scribble(paths_):
+            # what a caller may do with results it owns: edit the returned Path objects in place
+            P_ = spt.path
+            for p_ in paths_:
+                try:
+                    how_ = r.choice(['append', 'insert', 'del', 'seg-start', 'setitem', 'none'])
+                    if how_ == 'append':
+                        p_.append(P_.Line(p_[-1].end, p_[-1].end + (7 + 3j)))
+                    elif how_ == 'insert':
+                        p_.insert(0, P_.Line(p_[0].start - (5 + 1j), p_[0].start))
+                    elif how_ == 'del' and len(p_) > 1:
+                        del p_[0]
+                    elif how_ == 'seg-start':
+                        p_[0].start = p_[0].start + (2 - 4j)
+                    elif how_ == 'setitem':
+                        p_[-1] = P_.Line(p_[-1].start, p_[-1].start + (1 + 9j))
+                except Exception:
+                    pass
+        earlier = ''
+        if r.random() < 0.4:
+            # an earlier, unrelated flattening of the same text whose results were edited by their owner
+            try:
+                with warnings.catch_warnings():
+                    warnings.simplefilter('ignore')
+                    _scribble(spt.Document.from_svg_string(text).paths())
+                earlier = ' [after an earlier Document of the same text was flattened and its result paths edited in place]'
+                nontriv.add(('earlier-flattening-edited', len(ref)))
+            except Exception:
+                pass
         try:
             with warnings.catch_warnings():
                 warnings.simplefilter('ignore')
                 doc = spt.Document.from_svg_string(text)
                 got = doc.paths()
+                if r.random() < 0.4:
+                    # the same document asked twice, the first answer edited by the caller in between
+                    _scribble(got)
+                    got = doc.paths()
+                    earlier += ' [second paths() call on the document after the first result was edited in place]'
+            segs_seen = [id(sg) for p_ in got for sg in p_]
+            if len(set(id(p_) for p_ in got)) != len(got) or len(set(segs_seen)) != len(segs_seen):
+                fail('Document.paths/shared objects', 'two elements are returned as one shared Path / share segment objects', {'svg': text + earlier}, 'shared', 'one object per element')
             ids = sorted(p.element.get('id') for p in got)
             if ids != sorted(byid):
                 fail('Document.paths/element set', 'Document.paths() does not return exactly one path per supported element', {'svg': text}, repr(ids), repr(sorted(byid)))
